@@ -54,7 +54,21 @@ type SleepCase struct {
 	DeadlineAgo  int64 `json:"deadline_ago,omitempty"`
 	DeadlineZero bool  `json:"deadline_zero,omitempty"`
 	LagDone      bool  `json:"lag_done,omitempty"`
+	// Cause (fix8b): the context is built with the cause-carrying constructors of package context, so
+	// that context.Cause(ctx) differs from ctx.Err() once it has ended. "" = WithDeadline / WithCancel as
+	// before; "cancel" = the deadline by WithDeadlineCause(errDeadlineCause), the cancellation by
+	// WithCancelCause, cancelled with errCause; "parent" = a WithCancelCause *ancestor* is cancelled with
+	// errCause, the deadline (plain WithDeadline) and a plain WithCancel child hang below it. Instants,
+	// Deadline() and Err() are exactly those of the plain shapes: the model line is the same.
+	Cause string `json:"cause,omitempty"`
 }
+
+// The causes handed to the cause-carrying constructors: neither is, wraps or is wrapped by
+// context.Canceled / context.DeadlineExceeded.
+var (
+	errCause         = errors.New("worker pool is shutting down")
+	errDeadlineCause = errors.New("request budget used up")
+)
 
 // deadline returns the context's deadline relative to the instant of the call (what time.Until
 // reports then).
@@ -126,6 +140,7 @@ type sleepObs struct {
 	elapsed int64
 	ctxAt   int64 // instant at which the context's Done closes, -1 = never
 	isCtx   bool  // the returned error is exactly ctx.Err()
+	errText string // res == "other": the error returned, ctx.Err() and context.Cause(ctx) at that moment
 }
 
 func runSleep(t *testing.T, c SleepCase) sleepObs {
@@ -136,26 +151,45 @@ func runSleep(t *testing.T, c SleepCase) sleepObs {
 		var cancels []context.CancelFunc
 		o.ctxAt = -1
 		quit := make(chan struct{})
-		if dl, ok := c.deadline(); ok {
+		addDeadline := func() {
+			dl, ok := c.deadline()
+			if !ok {
+				return
+			}
 			at := start.Add(time.Duration(dl))
 			if c.DeadlineZero {
 				at = time.Time{}
 			}
 			if c.LagDone {
 				ctx = lagCtx{ctx, at} // Done stays open
+				return
+			}
+			var cf context.CancelFunc
+			if c.Cause == "cancel" {
+				ctx, cf = context.WithDeadlineCause(ctx, at, errDeadlineCause)
 			} else {
-				var cf context.CancelFunc
 				ctx, cf = context.WithDeadline(ctx, at)
-				cancels = append(cancels, cf)
+			}
+			cancels = append(cancels, cf)
+			if o.ctxAt < 0 || dl < o.ctxAt {
 				o.ctxAt = dl
-				if dl < 0 {
-					o.ctxAt = 0 // Done is closed when the call is made
-				}
+			}
+			if dl < 0 {
+				o.ctxAt = 0 // Done is closed when the call is made
 			}
 		}
-		if c.CancelAt >= 0 {
+		addCancel := func() {
+			if c.CancelAt < 0 {
+				return
+			}
 			var cf context.CancelFunc
-			ctx, cf = context.WithCancel(ctx)
+			if c.Cause != "" {
+				var ccf context.CancelCauseFunc
+				ctx, ccf = context.WithCancelCause(ctx)
+				cf = func() { ccf(errCause) }
+			} else {
+				ctx, cf = context.WithCancel(ctx)
+			}
 			cancels = append(cancels, cf)
 			if c.CancelAt == 0 {
 				cf()
@@ -173,6 +207,17 @@ func runSleep(t *testing.T, c SleepCase) sleepObs {
 			if o.ctxAt < 0 || c.CancelAt < o.ctxAt {
 				o.ctxAt = c.CancelAt
 			}
+		}
+		if c.Cause == "parent" {
+			// the cause-cancelled context is an ancestor; SleepContext is handed a plain grandchild
+			addCancel()
+			addDeadline()
+			var cf context.CancelFunc
+			ctx, cf = context.WithCancel(ctx)
+			cancels = append(cancels, cf)
+		} else {
+			addDeadline()
+			addCancel()
 		}
 		done := make(chan struct{})
 		go func() {
@@ -193,6 +238,7 @@ func runSleep(t *testing.T, c SleepCase) sleepObs {
 				o.isCtx = true
 			default:
 				o.res = "other"
+				o.errText = fmt.Sprintf("the error returned is %q, ctx.Err() is %v, context.Cause(ctx) is %v", err.Error(), ctx.Err(), context.Cause(ctx))
 			}
 		}()
 		<-done
@@ -221,7 +267,16 @@ func monitorSleep(c SleepCase, o sleepObs) *fail {
 	if c.LagDone {
 		p["done_lags"] = true
 	}
+	if c.Cause != "" {
+		p["ctx_cause"] = c.Cause
+	}
 	mk := func(kind, what string) *fail {
+		if o.errText != "" {
+			what += " (" + o.errText + ")"
+		}
+		if c.Cause != "" {
+			what += " [context built with the cause-carrying constructors, shape " + c.Cause + ": context.Cause(ctx) differs from ctx.Err()]"
+		}
 		lag := ""
 		if c.LagDone {
 			lag = ", Done not closed by the deadline"
@@ -271,7 +326,11 @@ func monitorSleep(c SleepCase, o sleepObs) *fail {
 		}
 		return nil
 	}
-	// "returns the context's error if the context ends first"
+	// "returns the context's error if the context ends first": the error of a context.Context is what its
+	// Err method reports (and the doc comment of SleepContext says "in which case it returns ctx.Err()").
+	// For contexts built with WithCancelCause / WithDeadlineCause that is not context.Cause(ctx): the
+	// classification "ctxerr" in runSleep compares with ctx.Err() (errors.Is), so a cause comes out as
+	// "other" here.
 	if o.ctxAt >= 0 && o.ctxAt < c.D {
 		if o.res != "ctxerr" {
 			return mk("sleep-ctx-first-wrong-result", "the context ended first: expected its error")
@@ -862,6 +921,10 @@ func genSleep(r *vlib.Rand) SleepCase {
 		c.DeadlineAgo = ago()
 		c.CancelAt = []int64{0, 0, 1, base}[r.Intn(4)]
 	}
+	// one case in three: the same shape built with the cause-carrying constructors
+	if r.Chance(1, 3) {
+		c.Cause = []string{"cancel", "parent"}[r.Intn(2)]
+	}
 	return c
 }
 
@@ -1300,6 +1363,12 @@ func (x *runner) shrinkSleep(c Case, kind string) Case {
 			c = cc
 		}
 	}
+	try(func(s *SleepCase) { s.Cause = "" })
+	try(func(s *SleepCase) {
+		if s.Cause == "parent" {
+			s.Cause = "cancel"
+		}
+	})
 	try(func(s *SleepCase) { s.CancelAt = -1 })
 	try(func(s *SleepCase) { s.Deadline, s.DeadlineAgo, s.DeadlineZero, s.LagDone = -1, 0, false, false })
 	try(func(s *SleepCase) { s.LagDone = false })
@@ -1470,6 +1539,13 @@ func TestVerif(t *testing.T) {
 		} {
 			cc := c
 			x.do(Case{Kind: "sleep", Sleep: &cc}, "sleep-shapes")
+			// the same shape with a context whose Cause differs from its Err (WithCancelCause /
+			// WithDeadlineCause; a cause-cancelled ancestor)
+			for _, cause := range []string{"cancel", "parent"} {
+				cz := c
+				cz.Cause = cause
+				x.do(Case{Kind: "sleep", Sleep: &cz}, "sleep-shapes-cause")
+			}
 		}
 	}
 	// "at once when d <= 0": d == 0 and d < 0 crossed with every context shape. With an ended context
